@@ -18,6 +18,11 @@ struct Tup(i64, Vec<u8>);
 #[derive(Debug, Clone, PartialEq, DbSerialize)]
 struct Unit;
 #[derive(Debug, Clone, PartialEq, DbSerialize)]
+struct Empty {}
+// elements that serialize to ZERO bytes inside vectors (the length prefix then exceeds the bytes that follow)
+#[derive(Debug, Clone, PartialEq, DbSerialize)]
+struct Marks { marks: Vec<Unit>, name: String, more: Vec<Empty> }
+#[derive(Debug, Clone, PartialEq, DbSerialize)]
 struct Mixed { flag: bool, ratio: f64, when: SystemTime, inner: Named, list: Vec<Tup> }
 #[derive(Debug, Clone, PartialEq, DbSerialize)]
 enum En { Unit, Tuple(u64, String), Struct { x: i64, y: Vec<i64> }, Nested(Named), Flag(bool) }
@@ -76,7 +81,7 @@ pub fn run(args: &Args) {
         for _ in 0..ops {
             n += 1;
             let r = &mut rng;
-            match r.below(22) {
+            match r.below(25) {
                 0 => { let v: u64 = *r.pick(&[0, 1, u64::MAX, 1 << 63]) ^ if r.chance(1, 2) { r.next() } else { 0 }; emit(&mut trace, "u64", &v, t_u64()); }
                 1 => { let v: i64 = *r.pick(&[0, -1, i64::MIN, i64::MAX]) ^ if r.chance(1, 2) { r.next() as i64 } else { 0 }; emit(&mut trace, "i64", &v, t_u64()); }
                 2 => { let v: f64 = *r.pick(&[0.0, -0.0, 1.5, f64::MAX, f64::MIN_POSITIVE, f64::INFINITY, f64::NEG_INFINITY]); emit(&mut trace, "f64", &v, t_u64()); }
@@ -95,6 +100,12 @@ pub fn run(args: &Args) {
                 14 => { let v = named(r); emit(&mut trace, "Named", &v, t_named(&v)); }
                 15 => { let v = tup(r); emit(&mut trace, "Tup", &v, t_tup(&v)); }
                 16 => { emit(&mut trace, "Unit", &Unit, json!(["seq", []])); }
+                22 => { let v: Vec<Unit> = (0..r.below(50)).map(|_| Unit).collect(); emit(&mut trace, "Vec<Unit>", &v, t_vec(v.iter().map(|_| json!(["seq", []])).collect())); }
+                23 => { let v: Vec<Vec<Empty>> = (0..r.below(4)).map(|_| (0..r.below(5)).map(|_| Empty {}).collect()).collect();
+                        emit(&mut trace, "Vec<Vec<Empty>>", &v, t_vec(v.iter().map(|i| t_vec(i.iter().map(|_| json!(["seq", []])).collect())).collect())); }
+                24 => { let v = Marks { marks: (0..r.below(60)).map(|_| Unit).collect(), name: rs(r), more: (0..r.below(4)).map(|_| Empty {}).collect() };
+                        let tree = json!(["seq", [t_vec(v.marks.iter().map(|_| json!(["seq", []])).collect()), t_str(&v.name), t_vec(v.more.iter().map(|_| json!(["seq", []])).collect())]]);
+                        emit(&mut trace, "Marks", &v, tree); }
                 17 => { let v = Mixed { flag: r.chance(1, 2), ratio: r.below(9) as f64 / 4.0, when: time(r), inner: named(r), list: (0..r.below(3)).map(|_| tup(r)).collect() };
                         let tree = json!(["seq", [t_leaf(1), t_u64(), t_leaf(13), t_named(&v.inner), t_vec(v.list.iter().map(t_tup).collect())]]);
                         emit(&mut trace, "Mixed", &v, tree); }
